@@ -11,7 +11,7 @@ ID = "C04"
 LEVEL = "model_checking"
 ALT_MOUNT = True
 _CFG = None
-ATTRS = {"none": None, "np": ["name", "ppid"], "n": ["name"]}
+ATTRS = {"none": None, "np": ("name", "ppid"), "n": {"name"}}          # (attrs as a tuple and as a set: any collection is documented)
 
 
 class Cfg:
